@@ -258,7 +258,7 @@ def _gko_post(E):
 def _gko_inv(E, Lc):
     g = E["self"].t
     rs = H(E, E.s0, "_reaction")[g]
-    _, order, pos = Lc.seq.src
+    _, order, pos = Lc.seq.src[:3]
     x, y = qv("ix", Ref), qv("iy", Ref)
     fun = H(E, Lc.st, "_functional")
     return z3.And(z3.Not(fun[g]),
